@@ -25,7 +25,7 @@ var subLabel = map[string]string{
 	"sub.l.close": "o_l_close", "sub.l.closed": "o_l_closed",
 	"sub.u1.closed": "o_u1_closed",
 	"sub.u2.read": "o_u2_read", "sub.u2.end_msg": "o_u2_end_msg", "sub.u2.end_closed": "o_u2_end_closed",
-	"sub.u2.sent": "o_u2_sent", "sub.u2.abort": "o_u2_abort", "sub.u2.nilsent": "o_u2_nilsent", "sub.u2.nilabort": "o_u2_nilabort",
+	"sub.u2.delivered/false": "o_u2_sent", "sub.u2.aborted/false": "o_u2_abort", "sub.u2.delivered/true": "o_u2_nilsent", "sub.u2.aborted/true": "o_u2_nilabort",
 }
 
 func newSubTracer() *subTracer {
@@ -35,6 +35,11 @@ func newSubTracer() *subTracer {
 			return
 		}
 		key := reflect.ValueOf(args[0]).Pointer()
+		if len(args) > 1 {
+			if isNil, isBool := args[1].(bool); isBool {
+				point = fmt.Sprintf("%s/%v", point, isNil)
+			}
+		}
 		lab, ok := subLabel[point]
 		if !ok {
 			lab = "o_unknown_" + strings.ReplaceAll(point, ".", "_")
